@@ -468,3 +468,37 @@ def _status_names(ctx):
             ok = ok and type(e).__name__ == 'SingleInstructionInvalidArgumentException'
     ctx.obligation('status instruction: documented spellings set the named status, anything else is a syntax error',
                    ok, 'enumeration', detail=detail)
+
+
+# ------------------------------------------------------------------------------ verdicts of what prevents / interrupts execution
+# "anything that prevents or interrupts execution is reported as the documented error verdict": the functions
+# that decide these verdicts are under contract in C01 (a failing [conf] instruction: also under SKIP) and in
+# C03 (file access / pre-process / syntax errors of the accessor; internal errors of the processor).  Their
+# clauses carry C02 as well: the check of C02 re-proves them on the current tree.
+
+def _widen():
+    import importlib
+    shared = {
+        'contracts.C01_protocol': {
+            'exactly_lib.execution.full_execution.execution:execute',
+            'exactly_lib.execution.full_execution.execution:execute_configuration_phase',
+            'exactly_lib.execution.full_execution.execution:new_configuration_phase_failure_from',
+        },
+        'contracts.C03_validation': {
+            'exactly_lib.processing.processing_utils:AccessorFromParts.apply',
+            'exactly_lib.processing.processing_utils:ProcessorFromAccessorAndExecutor.apply',
+            'exactly_lib.processing.processors:_Parser.apply',
+            'exactly_lib.processing.processors:_SourceReader.apply',
+            'exactly_lib.processing.processors:_Executor.apply',
+        },
+    }
+    for modname, qnames in shared.items():
+        mod = importlib.import_module(modname)
+        have = {c.qname for c in mod.M.contracts}
+        assert qnames <= have, qnames - have
+        for c in mod.M.contracts:
+            if c.qname in qnames:
+                c.props = tuple(sorted(set(c.props) | {'C02'}))
+
+
+M.after_load = _widen
